@@ -206,6 +206,18 @@ def guardsMeetContract : Bool :=
       o.guards.head? == some ("safelyRead@" ++ refOf o.recv) && o.held.contains "opMu:R" && o.held.contains "renameMu:R"
     else false
 
+/-- **A name is resolved to its path node under the locks that keep the name in place**: every
+look-up in `pathNodeFor` (the accesses to `childNodes` made inside it) happens with the rename lock
+write-held, or with it read-held together with the directory node's operation lock – so a rename
+cannot re-bind the name between the look-up and the locking of the node it yielded (a Tunlinkat
+that resolved the child node first and locked afterwards would lock a node the name no longer
+denotes). -/
+def nameLookupsUnderPathLocks : Bool :=
+  allObs.all fun o =>
+    !(o.kind == "access" && o.what == "childNodes" && o.chain.contains "pathNode.pathNodeFor") ||
+    (o.held.contains "renameMu:W" ||
+      (o.held.contains "renameMu:R" && (o.held.contains "opMu:R" || o.held.contains "opMu:W")))
+
 /-- `Open` is reached only inside the per-fidRef critical section that also tests and sets
 `opened` (so it is invoked at most once per File) -/
 def openOnceOk : Bool :=
